@@ -8,6 +8,7 @@ import (
 	"encoding/json"
 	"fmt"
 	"math"
+	"sort"
 	"strings"
 
 	"verif/harness/hx"
@@ -44,20 +45,85 @@ func famCoq(d desc) string {
 	return "FCubeQ"
 }
 
-func hash1(p, m uint64, l []int) uint64 {
+// polynomial fingerprint modulo 2^63 (Check/C18.v hash1 computes the same with Coq's machine integers)
+func hash1(m uint64, l []int) uint64 {
 	h := uint64(0)
 	for _, x := range l {
-		h = (h*m + uint64(x) + 1) % p
+		h = (h*m + uint64(x) + 1) & (1<<63 - 1)
 	}
 	return h
 }
 func hash2Coq(l []int) string {
-	return fmt.Sprintf("(%d,%d)", hash1(2147483647, 1000003, l), hash1(2147483629, 998244353, l))
+	return fmt.Sprintf("(%d,%d)%%Z", hash1(1000003, l), hash1(998244353, l))
 }
 
 func isEvenInt(x float64) bool { return x == math.Trunc(x) && math.Mod(x, 2) == 0 && x > 0 && x < 1e6 }
 
 var run *hx.Run
+
+// estimated evaluation cost (µs) of every case, aligned with run.Cases: used to spread the expensive cases over
+// the shards (hx cuts run.Cases into consecutive blocks, one coqc each)
+var weights []int
+
+func add(c hx.Case, w int) {
+	run.Add(c)
+	weights = append(weights, w)
+}
+
+// balance reorders run.Cases (and renumbers them) so that every consecutive block of the size hx.Finish uses
+// carries about the same estimated cost: longest-processing-time first into the least loaded block with room.
+func balance() {
+	n := len(run.Cases)
+	if n == 0 {
+		return
+	}
+	per := (n + 15) / 16
+	if per > run.ShardMax {
+		per = run.ShardMax
+	}
+	if per < 4 {
+		per = 4
+	}
+	nb := (n + per - 1) / per
+	order := make([]int, n)
+	for i := range order {
+		order[i] = i
+	}
+	sort.SliceStable(order, func(a, b int) bool { return weights[order[a]] > weights[order[b]] })
+	bins := make([][]int, nb)
+	load := make([]int, nb)
+	for _, i := range order {
+		best := -1
+		for b := 0; b < nb; b++ {
+			room := per
+			if b == nb-1 {
+				room = n - (nb-1)*per
+			}
+			if len(bins[b]) < room && (best < 0 || load[b] < load[best]) {
+				best = b
+			}
+		}
+		bins[best] = append(bins[best], i)
+		load[best] += weights[i]
+	}
+	out := make([]hx.Case, 0, n)
+	for _, b := range bins {
+		sort.Ints(b)
+		for _, i := range b {
+			c := run.Cases[i]
+			c.ID = len(out)
+			out = append(out, c)
+		}
+	}
+	run.Cases = out
+	mx := 0
+	for _, l := range load {
+		if l > mx {
+			mx = l
+		}
+	}
+	run.Extra["estimated_max_shard_cost_s"] = float64(mx) / 1e6
+}
 
 // one: run one parameterisation; mode "full" | "hash" | "auto" (by size and tier)
 func one(d desc, mode string) {
@@ -65,8 +131,8 @@ func one(d desc, mode string) {
 	run.Count("class:" + class)
 	if class != clsOK {
 		// an admissible parameter choice must be accepted
-		run.Add(hx.Case{Kind: "prim", Desc: d, Coq: "CGoOnly", Key: d.key(), Nontriv: false,
-			GoFail: fmt.Sprintf("constructor failed on admissible parameters (%s): %s", class, msg)})
+		add(hx.Case{Kind: "prim", Desc: d, Coq: "CGoOnly", Key: d.key(), Nontriv: false,
+			GoFail: fmt.Sprintf("constructor failed on admissible parameters (%s): %s", class, msg)}, 1)
 		return
 	}
 	scale := maxAbs(p.Pos)
@@ -159,7 +225,8 @@ func one(d desc, mode string) {
 		c.Coq = fmt.Sprintf("CHash %s %d %d %s %s", famCoq(d), len(p.Pos), len(p.Idx), hash2Coq(p.Idx), hash2Coq(rep))
 		run.Count("shape:hash")
 	}
-	run.Add(c)
+	w := 60 * (len(p.Idx) + len(rep))
+	add(c, w)
 }
 
 func zlit(x int64) string {
@@ -205,7 +272,7 @@ func conv(cd convDesc) {
 		prevV, prevErr = v, e
 	}
 	run.Count("conv:" + cd.Fam)
-	run.Add(hx.Case{Kind: "conv", Desc: cd, Coq: "CGoOnly", Key: fmt.Sprintf("conv/%s/%g/%v", cd.Fam, cd.Size, cd.Res), Nontriv: true, GoFail: fail})
+	add(hx.Case{Kind: "conv", Desc: cd, Coq: "CGoOnly", Key: fmt.Sprintf("conv/%s/%g/%v", cd.Fam, cd.Size, cd.Res), Nontriv: true, GoFail: fail}, 1)
 }
 
 func reject(rd rejectDesc) {
@@ -217,8 +284,8 @@ func reject(rd rejectDesc) {
 		fail = "constructor crashed with a runtime error instead of rejecting the parameters"
 	}
 	run.Count("reject:" + class)
-	run.Add(hx.Case{Kind: "reject", Desc: rd, Key: fmt.Sprintf("reject/%s/%d/%d", rd.Fam, rd.Rows, rd.Cols), Nontriv: false, GoFail: fail,
-		Coq: fmt.Sprintf("CReject %d %s %s %s", kind, hx.CoqZ(int64(rd.Rows)), hx.CoqZ(int64(rd.Cols)), hx.CoqBool(class != clsOK))})
+	add(hx.Case{Kind: "reject", Desc: rd, Key: fmt.Sprintf("reject/%s/%d/%d", rd.Fam, rd.Rows, rd.Cols), Nontriv: false, GoFail: fail,
+		Coq: fmt.Sprintf("CReject %d %s %s %s", kind, hx.CoqZ(int64(rd.Rows)), hx.CoqZ(int64(rd.Cols)), hx.CoqBool(class != clsOK))}, 1)
 }
 
 // degenerate cylinder side counts: the constructor does not validate; recorded, not judged (sides >= 3 is
@@ -245,6 +312,49 @@ func cylDegenerate(sides int) {
 		}
 	}
 	run.Count(fmt.Sprintf("cyl-sides-%d:%s", sides, state))
+}
+
+// primitives.Cone is a lateral surface only (no base disc): it is not one of the solids the property names.
+// Recorded, not judged: its only unmatched directed edges must be the base ring (see notes/C18.md).
+func coneObserve(sides int) {
+	d := desc{Fam: "cone", Sides: sides, Radius: 1, Height: 2}
+	p, class, _ := build(d)
+	state := class
+	if class == clsOK {
+		rep := classes(p.Pos, 1e-9)
+		type e struct{ a, b int }
+		seen := map[e]int{}
+		ok := len(p.Idx)%3 == 0
+		for t := 0; ok && t+2 < len(p.Idx); t += 3 {
+			a, b, c := rep[p.Idx[t]], rep[p.Idx[t+1]], rep[p.Idx[t+2]]
+			seen[e{a, b}]++
+			seen[e{b, c}]++
+			seen[e{c, a}]++
+		}
+		open, dup := 0, 0
+		for x, k := range seen {
+			if k > 1 {
+				dup++
+			}
+			if seen[e{x.b, x.a}] == 0 {
+				open++
+				if x.a >= sides || x.b >= sides {
+					ok = false // an unmatched edge that is not on the base ring
+				}
+			}
+		}
+		switch {
+		case !ok || dup > 0:
+			state = "accepted-inconsistent"
+		case open == sides:
+			state = "accepted-open-at-base-only"
+		case open == 0:
+			state = "accepted-closed"
+		default:
+			state = "accepted-other"
+		}
+	}
+	run.Count("cone:" + state)
 }
 
 // a second dimension within a factor 20 of the first (keeps float rounding far below the merge tolerance)
@@ -290,14 +400,28 @@ func main() {
 		}
 	}
 	if run.Replay != "" {
+		balance()
 		run.Finish()
 		return
 	}
 	r := hx.NewRng(run.Seed)
 
-	// --- every (rows, cols) <= 24 x 24, random positive radius ---
+	// --- (rows, cols) <= 24 x 24, random positive radius.  thorough: every pair, full lists.
+	//     quick: every pair <= 12 x 12 with full lists; of the larger pairs one residue class of rows+cols mod 4
+	//     (chosen by the seed) plus the corners, as hashes ---
+	thorough := run.Tier == "thorough"
+	big := 160
+	if !thorough {
+		big = 80
+	}
 	for rows := 2; rows <= 24; rows++ {
 		for cols := 3; cols <= 24; cols++ {
+			if !thorough && (rows > fullLimitQuick || cols > fullLimitQuick) {
+				corner := (rows == 2 || rows == 24) && (cols == 3 || cols == 24)
+				if !corner && (rows+cols+int(run.Seed%4))%4 != 0 {
+					continue
+				}
+			}
 			one(desc{Fam: "sphere", Rows: rows, Cols: cols, Radius: randSize(r)}, "auto")
 			one(desc{Fam: "sphereU", Rows: rows, Cols: cols, Radius: randSize(r)}, "auto")
 			one(desc{Fam: "hemi", Rows: rows, Cols: cols, Radius: randSize(r), Capped: r.Bool()}, "auto")
@@ -331,6 +455,9 @@ func main() {
 	for _, s := range []int{0, 1, 2} {
 		cylDegenerate(s)
 	}
+	for _, s := range []int{2, 3, 4, 5, 8, 17, 64} {
+		coneObserve(s)
+	}
 	// --- convergence towards the analytic volume ---
 	for _, fam := range []string{"sphere", "sphereU", "hemi", "cyl"} {
 		conv(convDesc{Fam: fam, Size: 1, Res: []int{4, 8, 16, 32, 64, 128}})
@@ -343,19 +470,19 @@ func main() {
 	for i := 0; i < run.N; i++ {
 		switch r.Intn(8) {
 		case 0:
-			one(desc{Fam: "sphere", Rows: r.Range(25, 160), Cols: r.Range(25, 160), Radius: randSize(r)}, "hash")
+			one(desc{Fam: "sphere", Rows: r.Range(25, big), Cols: r.Range(25, big), Radius: randSize(r)}, "hash")
 		case 1:
-			one(desc{Fam: "sphereU", Rows: r.Range(25, 100), Cols: r.Range(25, 100), Radius: randSize(r)}, "hash")
+			one(desc{Fam: "sphereU", Rows: r.Range(25, big*5/8), Cols: r.Range(25, big*5/8), Radius: randSize(r)}, "hash")
 		case 2:
-			one(desc{Fam: "hemi", Rows: r.Range(25, 160), Cols: r.Range(25, 160), Radius: randSize(r), Capped: r.Bool()}, "hash")
+			one(desc{Fam: "hemi", Rows: r.Range(25, big), Cols: r.Range(25, big), Radius: randSize(r), Capped: r.Bool()}, "hash")
 		case 3:
 			rad := randSize(r)
-			one(desc{Fam: "cyl", Sides: r.Range(65, 3000), Radius: rad, Height: relSize(r, rad), UV: r.Intn(8), UVSeed: r.U64() % 1000}, "hash")
+			one(desc{Fam: "cyl", Sides: r.Range(65, big*20), Radius: rad, Height: relSize(r, rad), UV: r.Intn(8), UVSeed: r.U64() % 1000}, "hash")
 		case 4:
 			// extreme aspect ratios: very flat / very thin, few and many columns
-			rows, cols := r.Range(2, 4), r.Range(25, 300)
+			rows, cols := r.Range(2, 4), r.Range(25, big*2)
 			if r.Bool() {
-				rows, cols = r.Range(25, 300), r.Range(3, 5)
+				rows, cols = r.Range(25, big*2), r.Range(3, 5)
 			}
 			one(desc{Fam: hx.Pick(r, []string{"sphere", "sphereU", "hemi"}), Rows: rows, Cols: cols, Radius: randSize(r)}, "hash")
 		case 5:
@@ -371,5 +498,6 @@ func main() {
 	}
 	run.Extra["full_limit"] = map[string]int{"quick": fullLimitQuick, "thorough": fullLimitThorough}
 	run.Extra["merge_tolerance"] = "1e-9 relative to the largest coordinate (exact equality suffices for spheres, hemispheres and the welded box; the cylinder seam/bottom cap and the six-quad box coincide only within rounding)"
+	balance()
 	run.Finish()
 }
